@@ -649,8 +649,8 @@ fn run_search(ctx: &Ctx, phase: &str, profile: &str, total: u32, dir: &str) {
                             } else if last_change.elapsed() > Duration::from_secs(120) {
                                 let _ = child.kill();
                                 let _ = child.wait();
-                                let keep = format!("{}/replays/C01-hang.json", VERIF_DIR);
-                                let _ = std::fs::create_dir_all(format!("{}/replays", VERIF_DIR));
+                                let keep = format!("{}/C01-hang.json", crate::engine::out_dir("replays"));
+                                let _ = std::fs::create_dir_all(crate::engine::out_dir("replays"));
                                 let _ = std::fs::copy(&cur, &keep);
                                 ctx.harness_err.lock().unwrap().get_or_insert(format!(
                                     "watchdog: no progress for 120 s in {} worker (case saved to {}) - inconclusive",
